@@ -2,6 +2,8 @@ package rules
 
 import (
 	"fmt"
+	"go/ast"
+	"go/token"
 	"strings"
 
 	"mlverif/core"
@@ -94,23 +96,85 @@ func checkWriters(c *Ctx, prop string) {
 				continue
 			}
 			n++
-			ok := false
+			ok := true
 			why := ""
-			sum := c.G.Summary(fn)
-			switch {
-			case handlers[fn] != "":
-				ok = true
-			case rec && k == "W:nodeState.Incarnation" && sum["ATOMICW:Memberlist.incarnation"] && sum["QB"]:
-				ok = true // refutation helper
-			case tab && (k == "MAPDEL:Memberlist.nodeMap" || k == "W:Memberlist.nodes" || k == "WELEM:Memberlist.nodes") && isReaper(c, fn):
-				ok = true
-			default:
-				why = fmt.Sprintf("%s in %s, which is not a claim handler, the refutation helper or the reaper", k, fn.Name)
+			for _, root := range c.rootsOf(fn) {
+				sum := c.G.Summary(root)
+				switch {
+				case handlers[root] != "":
+				case rec && k == "W:nodeState.Incarnation" && sum["ATOMICW:Memberlist.incarnation"] && sum["QB"]:
+					// refutation helper
+				case tab && (k == "MAPDEL:Memberlist.nodeMap" || k == "W:Memberlist.nodes" || k == "WELEM:Memberlist.nodes") && isReaper(c, root):
+				default:
+					ok = false
+					why = fmt.Sprintf("%s in %s, which is not a claim handler, the refutation helper or the reaper", k, root.Name)
+				}
 			}
 			c.Check(fmt.Sprintf("%s/writers/%s/%s", prop, fn.Name, k), rule, s.Pos, ok, why)
 		}
 	}
 	c.Floor("record/table write sites", n, 30)
+	// the name table never holds a nil record: every insertion stores the address of a
+	// record literal, directly or through a variable assigned exactly that
+	ruleN := "every insertion into the name table stores a record built in place (&nodeState{...}): the table holds no nil record, so a lookup yields nil exactly when it misses"
+	c.Rule(ruleN)
+	ni := 0
+	for _, fn := range p.SortedFuncs() {
+		for _, s := range c.G.Sites[fn] {
+			if s.Kind != "MAPINS:Memberlist.nodeMap" {
+				continue
+			}
+			ni++
+			ok := false
+			var stmt ast.Node = s.Node
+			for i := 0; stmt != nil && i < 3; i++ {
+				if _, isA := stmt.(*ast.AssignStmt); isA {
+					break
+				}
+				stmt = p.Parent(stmt)
+			}
+			if as, isA := stmt.(*ast.AssignStmt); isA && len(as.Lhs) == 1 && len(as.Rhs) == 1 {
+				rhs := ast.Unparen(as.Rhs[0])
+				if cl := compositeLit(rhs); cl != nil {
+					_, isAddr := rhs.(*ast.UnaryExpr)
+					ok = isAddr
+				} else if id, isId := rhs.(*ast.Ident); isId {
+					o := p.Info.Uses[id]
+					ok = o != nil
+					nasg := 0
+					ast.Inspect(fn.Decl.Body, func(n ast.Node) bool {
+						a2, isA2 := n.(*ast.AssignStmt)
+						if !isA2 {
+							return true
+						}
+						for i, l := range a2.Lhs {
+							lid, isL := ast.Unparen(l).(*ast.Ident)
+							if !isL || (p.Info.Uses[lid] != o && p.Info.Defs[lid] != o) {
+								continue
+							}
+							nasg++
+							if len(a2.Rhs) != len(a2.Lhs) {
+								// the lookup that precedes the insertion (v, ok := table[k]): the
+								// insertion is then guarded by !ok and re-assigned; accept only when
+								// another assignment stores a literal
+								continue
+							}
+							r := ast.Unparen(a2.Rhs[i])
+							if u, isU := r.(*ast.UnaryExpr); !isU || u.Op != token.AND || compositeLit(r) == nil {
+								ok = false
+							}
+						}
+						return true
+					})
+					if nasg == 0 {
+						ok = false
+					}
+				}
+			}
+			c.Check(fmt.Sprintf("%s/table-values-non-nil/%s", prop, c.rootsOf(fn)[0].Name), ruleN, s.Pos, ok, "the value stored in the name table is not a record literal built in "+fn.Name)
+		}
+	}
+	c.Floor("name-table insertions", ni, 1)
 	// writes through *Node must target a Node built in the same function
 	rule2 := "no record is modified through a *Node alias: every store to a Node field targets a literal built in the same function"
 	c.Rule(rule2)
@@ -139,7 +203,7 @@ func checkWriters(c *Ctx, prop string) {
 // deletes from the name table, and does nothing else to records.
 func isReaper(c *Ctx, fn *core.Func) bool {
 	has := map[string]bool{}
-	for _, s := range c.G.Sites[fn] {
+	for _, s := range c.sitesOf(fn) {
 		has[s.Kind] = true
 	}
 	for k := range has {
